@@ -2208,7 +2208,14 @@ class CIMInstanceName(_CIMComparisonMixin, SlottedPickleMixin):
                 # which is the precision needed to round-trip double precision
                 # IEE-754 floating point numbers between decimal and binary
                 # without loss.
-                ret.append(repr(value))
+                # repr() of the CIMFloat types is a debug representation, so
+                # the value is converted to float first. DSP0004 realValue
+                # requires a decimal point, which repr() omits for some
+                # exponent forms (e.g. '1e+20').
+                real_str = repr(float(value))
+                if 'e' in real_str and '.' not in real_str:
+                    real_str = real_str.replace('e', '.0e')
+                ret.append(real_str)
             elif isinstance(value, (CIMInt, int)):
                 # intNN
                 ret.append(str(value))
